@@ -250,6 +250,7 @@ def c01(run, ctx):
 
 
 def c02(run, ctx):
+    fam_enc.slot_operands(run, ctx)
     fam_enc.slot_rule(run, ctx)
     fam_enc.wrap_tree_rule(run, ctx)
     fam_tmpl.atomic_and_group_arms(run, ctx)
@@ -334,6 +335,7 @@ _c15_old = c15
 
 def c05(run, ctx):
     _c05_old(run, ctx)
+    fam_enc.slot_operands(run, ctx)
     fam_xfer.backref_validity(run, ctx)
     fam_vm.run_returns(run, ctx)
     fam_vm.own_ix(run, ctx)
